@@ -537,3 +537,24 @@ def inline_call(expr, func, prog, depth=0):
             return node
     new = Sub().visit(copy.deepcopy(body[0].value))
     return inline_call(new, func, prog, depth + 1)
+
+
+def ret_expr(p, depth=0):
+    """The expression a path returns, with a returned local replaced by the
+    value last assigned to it on that path (single-exit style)."""
+    if p.exit != "return" or p.exit_node is None or p.exit_node.value is None:
+        return None
+    e = p.exit_node.value
+    seen = 0
+    while isinstance(e, ast.Name) and seen < 4:
+        last = None
+        for st in p.stmts:
+            if isinstance(st, (ast.Assign, ast.AnnAssign)):
+                tgts = st.targets if isinstance(st, ast.Assign) else [st.target]
+                if any(isinstance(t, ast.Name) and t.id == e.id for t in tgts) and st.value is not None:
+                    last = st.value
+        if last is None:
+            break
+        e = last
+        seen += 1
+    return e
